@@ -10,7 +10,34 @@ VERIF = os.path.dirname(os.path.dirname(os.path.abspath(__file__)))
 SX = "bounded symbolic execution of the real py34/bacpypes code (CrossHair state-space engine + z3), path-exhaustive within stated bounds; counterexamples replayed under plain CPython"
 
 # id -> (design section, technique, level text, level note)
+SCN = ("bounded symbolic execution of the real py34/bacpypes stacks (application - ASAP - SMAP - NSAP - vlan) on a virtual clock driving the "
+       "real core.run/TaskManager, CrossHair state-space engine + z3: every fault placement / configuration choice inside the stated "
+       "bounds is a solver-explored path and every payload octet a z3 variable; counterexamples replayed under plain CPython")
+
 CLAIMED = {
+    "C04": ("6/C04", SCN,
+            "Two complete stacks on a fault-injecting virtual LAN: for every placement of the instance's faults (drop, duplicate, reorder, "
+            "delay across timeouts, silence from any frame on) over every frame, with symbolic payload octets, the solver-explored paths "
+            "show exactly one outcome of a legal kind with the request's invoke ID, delivered within the analytic time bound, and no "
+            "transaction, timer, IOCB queue entry or further frame afterwards. Exhaustive inside the per-instance shape bounds "
+            "(payload lengths, window sizes, retry counts, one fault in quick / two in thorough); nothing outside.",
+            "Trusted: CrossHair symbolic models, z3, the virtual clock/loop stubs of vf/world.py (zero processing time), the fault LAN of "
+            "vf/netlab.py; max APDU 50/128 only; threads (IOCB.wait) not modelled."),
+    "C05": ("6/C05", SCN + "; wire oracle through an independent clause 20.1 header decoder",
+            "Segmented private transfers with every payload octet symbolic: what reaches either application is decided by z3 to be "
+            "octet-for-octet the submitted content on every path; on the wire sequence numbers are consecutive modulo 256, more-follows "
+            "correct, outstanding segments never exceed the window in force; every single lost / duplicated / reordered frame (symbolic "
+            "frame index) still ends in the service ack. Universal in content and fault position inside the instance bounds "
+            "(<= 5 segments, S = 50/128, windows 1..8).",
+            "Trusted: as C04. More than 5 segments / sequence wrap-around and S >= 206 are outside the scenario harness."),
+    "C06": ("6/C06", SCN.replace("stacks (application - ASAP - SMAP - NSAP - vlan)", "network layer (NSAP, NetworkServiceElement, NetworkAdapter) on vlan networks")
+            + "; frames read with an independent clause 6.2 decoder; reference delivery function from the topology",
+            "On six concrete loop-free topologies (2..5 networks, routers of 2..4 ports), for every source station, destination kind and "
+            "destination (symbolic selectors) and symbolic payload: exactly the addressed stations receive, each once; the source shown "
+            "to each recipient routes a reply back to the originator and nobody else; one frame per network on the path with hop count "
+            "255 minus router hops; cold and warm caches; stations that do not know their network number. A cyclic topology shows "
+            "hop-count termination for symbolic initial counts.",
+            "Trusted: as C04. Topologies other than the instantiated ones are outside; routing-protocol chatter in cyclic topologies is not part of the claim."),
     "C07": ("6/C07",
             SX + "; differential against a clause-20.1 reference layout",
             "For each of the eight APDU types every header field is a z3 variable; the solver shows on every path that "
@@ -18,6 +45,18 @@ CLAIMED = {
             "every octet string up to the bound is decoded totally (header or DecodingError, fixed point on re-encode); "
             "the two code tables are checked for every capability value in range. Universal inside the bounds, nothing outside.",
             "Trusted: CrossHair's symbolic int/bytes models, z3, the hand-written reference layout; payload length bound 2/4, octet strings <= 5/8."),
+    "C11": ("6/C11", SCN,
+            "Invoke-ID allocation from a symbolic cursor (wrap-around without 256 requests) with symbolic peer choice and application-chosen "
+            "IDs; one inbound reply of each kind with symbolic source and symbolic invoke ID against three live transactions with a forced "
+            "cross-peer ID collision: only the transaction with equal (peer, ID) completes, every other ends by its own timeout, duplicates "
+            "are ignored; retransmitted requests are indicated once and equal IDs from two peers are answered separately.",
+            "Trusted: as C04. At most 6 outstanding requests / 3 peers; exhaustion of all 256 IDs toward one peer is outside."),
+    "C12": ("6/C12", SCN + "; frame lengths and headers read with an independent decoder; expected outcome from reference arithmetic on clause 20.1 header sizes",
+            "For capability pairs (max APDU, segmentation support, max segments, I-Am known or not) with symbolic proposed windows 1..127 and "
+            "symbolic payload lengths around the boundaries: no APDU on the LAN exceeds what its receiver announced, responses are segmented "
+            "only when accepted and within max-segments, requests only toward peers that can receive segments, windows stay in 1..127 and "
+            "within the proposal, and the outcome (ack or abort) is the one the limits dictate.",
+            "Trusted: as C04; the application feeds I-Am announcements into DeviceInfoCache.iam_device_info (bacpypes leaves that to the application)."),
 }
 
 NOT_YET = {}
